@@ -434,7 +434,10 @@ fn coordinator(args: &Args) -> i32 {
             }
             let path = vdir.join(format!("{}-{}-{}-{:08x}.json", args.id, v.sub, v.profile, h as u32));
             let _ = std::fs::write(&path, text);
-            eprintln!("[{}] {} / {} ({}): {}", args.id, v.sub, v.profile, path.display(), v.message);
+            // (long messages - e.g. a text of a megabyte - are cut here; the replay
+            // file has the whole case)
+            let msg: String = if v.message.chars().count() > 1200 { v.message.chars().take(1200).chain(" ...".chars()).collect() } else { v.message.clone() };
+            eprintln!("[{}] {} / {} ({}): {}", args.id, v.sub, v.profile, path.display(), msg);
             violation_lines.push(format!("VIOLATION property={} replay={}", args.id, path.display()));
             n_viol += 1;
         }
